@@ -1,9 +1,59 @@
 import StraxModel.Driver.Parse
+import StraxModel.Model.Pipeline
 namespace Strax.Driver
-open Strax
+open Strax Strax.Pipeline Strax.Pipeline.Vocab
 
-/-- ops of property C01 (stub: no ops yet) -/
+/-- `kind:params:deps:outs`, params / deps / outs comma separated, `-` = none -/
+def c01ParseKind (k : String) (ps : List Nat) : Option VKind :=
+  match k, ps with
+  | "map", [c] => some (.map c)
+  | "filter", [m, r] => some (.filter m r)
+  | "merge", [] => some .merge
+  | "multi", [c, m, r] => some (.multi c m r)
+  | "pairfirst", [c] => some (.pairfirst c)
+  | "loop", [] => some .loop
+  | "overlap", [w] => some (.overlap w)
+  | "downchunk", [c] => some (.downchunk c)
+  | "exhaust", [c] => some (.exhaust c)
+  | _, _ => none
+
+def c01ParseNode (s : String) : Option VNode :=
+  match s.splitOn ":" with
+  | [k, ps, deps, outs] => do
+    let ps ← parseNats ps
+    let kind ← c01ParseKind k ps
+    pure ⟨kind, splitList deps ",", splitList outs ","⟩
+  | _ => none
+
+/-- `name=rows` with rows `t/e/id,…` (`/` because `:` separates fields of a row elsewhere too) -/
+def c01ParseSrc (s : String) : Option (String × List Row) :=
+  match s.splitOn "=" with
+  | [name, rows] => do pure (name, ← parseRows rows)
+  | _ => none
+
+/-- a yielded chunk `start~stop~rows` -/
+def c01ParseChunk (s : String) : Option Chunk :=
+  match s.splitOn "~" with
+  | [a, b, rows] => do
+    pure { dataType := "d", kind := "k", runId := some "0", start := ← a.toInt?, stop := ← b.toInt?,
+           rows := ← parseRows rows, subruns := none, superrun := [], target := 0 }
+  | _ => none
+
+def c01B (b : Bool) : String := if b then "1" else "0"
+
+/-- ops of property C01 -/
 def handleC01 : List String → Option String
+  | "c01.whole" :: graph :: target :: srcs => do
+    -- whole-run semantics of a harness graph: the rows of `target`
+    let nodes ← (splitList graph ";").mapM c01ParseNode
+    let w ← srcs.mapM c01ParseSrc
+    pure <| showExcept showIds
+      (wholeV nodes w >>= fun w' => lookupW w' target)
+  | "c01.law" :: t0 :: t1 :: chunks => do
+    -- the property's second sentence evaluated on a yielded chunk sequence
+    let t0 ← t0.toInt?; let t1 ← t1.toInt?
+    let cs ← chunks.mapM c01ParseChunk
+    pure s!"ok law={c01B (lawAbidingB cs)} span={c01B (span cs == some (t0, t1))} global={c01B (lawAbidingGlobalB cs)}"
   | _ => none
 
 end Strax.Driver
